@@ -528,7 +528,7 @@ func ReplayEdges(f *Factory, in io.ReadSeeker, out io.Writer, shard, nshard int,
 
 	if f.Target != "osfs" {
 		if err := scan(func(_ int, e *Edge) {
-			if e.T == "alt" && e.Alt != nil && e.Alt.Impl == f.Target {
+			if e.T == "alt" && e.Alt != nil && e.Alt.Impl == f.Impl() {
 				k := keyOf(e)
 				mu.Lock()
 				alts[k] = append(alts[k], *e.Alt)
@@ -814,7 +814,7 @@ func (f *Factory) replayEdge(idx int, e *Edge, names []string) (EdgeResult, erro
 	// does the step equal what an open deviation of the catalogue admits (computed by TLC for this transition)?
 	if okInv || ev.Inv != "ok" {
 		for _, a := range e.Alts {
-			if a.Impl != f.Target {
+			if a.Impl != f.Impl() {
 				continue
 			}
 
